@@ -118,6 +118,7 @@ type pathResult struct {
 	newWork   [][]int
 	funcs     map[*ssa.Function]int
 	hasModel  bool
+	replaced  map[string]bool
 }
 
 type siteStat struct {
@@ -150,11 +151,12 @@ type runResult struct {
 	SolverErrors []string             `json:"solver_errors,omitempty"`
 	Solver       string               `json:"solver"`
 	Bounds       map[string]any       `json:"bounds"`
+	Replaced     map[string]bool      `json:"replaced_functions"`
 }
 
 // runPath executes the entry function once along prefix.
 func runPath(p *program, cfg *Config, sv *solver, entry *ssa.Function, prefix []int, wantModel bool) (res *pathResult) {
-	ex := &executor{cfg: cfg, sv: sv, prefix: prefix}
+	ex := &executor{cfg: cfg, sv: sv, prefix: prefix, replaced: map[string]bool{}}
 	i := &interpreter{
 		prog:     p.prog,
 		globals:  make(map[*ssa.Global]*value),
@@ -173,6 +175,7 @@ func runPath(p *program, cfg *Config, sv *solver, entry *ssa.Function, prefix []
 		res.Steps = i.steps
 		res.newWork = ex.newWork
 		res.funcs = i.funcsRun
+		res.replaced = ex.replaced
 		res.Events = ex.events
 		res.Outs = ex.outs
 		res.Asserts = ex.asserts
@@ -393,6 +396,12 @@ func explore(p *program, cfg *Config, entry *ssa.Function) (*runResult, error) {
 						st.Unknown++
 						rr.Inconclusive["solver unknown on assertion "+a.ID]++
 					}
+				}
+				for k := range res.replaced {
+					if rr.Replaced == nil {
+						rr.Replaced = map[string]bool{}
+					}
+					rr.Replaced[k] = true
 				}
 				for _, r := range res.Reaches {
 					rr.Reaches[r]++
